@@ -445,6 +445,12 @@ Theorem C07_concurrent_quiescent_reopen :
 Proof. exact concurrent_quiescent_reopen. Qed.
 Print Assumptions C07_concurrent_quiescent_reopen.
 
+(* the step order of Model/StoreLTS.v is the call order of Store.Push / tag / Tag / Untag in
+   content/oci/oci.go as re-read on this run *)
+Theorem C07_oci_step_order_src : oci_step_order = true.
+Proof. exact oci_step_order_true. Qed.
+Print Assumptions C07_oci_step_order_src.
+
 Example C07_concurrent_example :
   exists st', crun (ctab lts_ct) lts_isman 50 (cinit empty_store lts_ops) lts_trace = Some st' /\
               call_done st' = true /\ o_blobs (c_s st') = [2; 0]%N /\
